@@ -85,6 +85,23 @@ def match_brace(m: str, open_pos: int) -> int:
     raise AnchorError(f'unbalanced {o} at offset {open_pos}')
 
 
+def find_impl_bodies(m: str, impl_regex: str):
+    """All impl blocks whose header matches (a type may have several `impl T {` blocks)."""
+    if impl_regex.strip() in ('-', ''):
+        return [(-1, len(m))]
+    hits = []
+    for mm in re.finditer(r'(?m)^[ \t]*(?:unsafe\s+)?impl\b', m):
+        ob = m.find('{', mm.start())
+        if ob < 0:
+            continue
+        header = ' '.join(m[mm.start():ob].split())
+        if re.search(impl_regex, header):
+            hits.append((ob, match_brace(m, ob)))
+    if not hits:
+        raise AnchorError(f'impl anchor /{impl_regex}/ matched 0 blocks')
+    return hits
+
+
 def find_impl_body(m: str, impl_regex: str):
     """Find the single `impl ... {` header whose text (whitespace-normalised, up to '{') matches impl_regex.
     Returns (open_brace, close_brace). impl_regex '-' means top level (whole file)."""
@@ -117,12 +134,12 @@ def find_fn(src: str, m: str, impl_regex: str, name: str):
     """Locate fn `name` directly inside the container. Returns dict with offsets:
     item_start (start of line of first attribute/doc/`pub`), sig_start (the `fn` keyword... actually start of
     qualifiers like pub/async), body_open, body_close (indexes of braces)."""
-    ob, cb = find_impl_body(m, impl_regex)
     hits = []
-    for mm in re.finditer(r'\bfn\s+' + re.escape(name) + r'\b', m[ob + 1:cb]):
-        pos = ob + 1 + mm.start()
-        if depth_at(m, ob + 1, pos) == 0:
-            hits.append(pos)
+    for ob, cb in find_impl_bodies(m, impl_regex):
+        for mm in re.finditer(r'\bfn\s+' + re.escape(name) + r'\b', m[ob + 1:cb]):
+            pos = ob + 1 + mm.start()
+            if depth_at(m, ob + 1, pos) == 0:
+                hits.append(pos)
     if len(hits) != 1:
         raise AnchorError(f'fn anchor {name} in /{impl_regex}/ matched {len(hits)} items')
     fn_kw = hits[0]
